@@ -1138,6 +1138,9 @@ func (s *Server) SetReplicationModeConfig(cfg config.ReplicationModeConfig) erro
 	if config.NormalizeReplicationMode(cfg.ReplicationMode) == "" {
 		return errors.Errorf("invalid replication mode: %v", cfg.ReplicationMode)
 	}
+	// Every accepted spelling ("dr_auto_sync", "DR-AUTO-SYNC", ...) is stored and served in its internal form:
+	// the mode manager only knows "majority" and "dr-auto-sync".
+	cfg.ReplicationMode = config.NormalizeReplicationMode(cfg.ReplicationMode)
 
 	old := s.persistOptions.GetReplicationModeConfig()
 	s.persistOptions.SetReplicationModeConfig(&cfg)
